@@ -195,6 +195,85 @@ def api_wrong_kind(vals=None, out=None):
     return res[0][0] == "OK" or res[2][0] == "OK", {"script": "set_preference(Rate,true); set_preference(Verbosity,false)", "results": res}
 
 
+
+# ======================================================================================================================
+# K-C12-d: get_preference reads back exactly what pref_to_string holds for that name (no substitution by another preference's value)
+GET_SHIM = r"""
+pub type Result<T> = core::result::Result<T, Error>;
+#[derive(Debug)] pub struct Error;
+macro_rules! bail { ($($t:tt)*) => { return Err(Error) }; }
+pub struct RC<T>(T);
+impl<T> RC<T> { fn borrow(&self) -> &T { &self.0 } }
+pub struct Rules { pref_manager: RC<PreferenceManager> }
+/// what the preference manager holds: Language, LanguageAuto, Rate; every other name is unknown
+pub struct PreferenceManager { lang: &'static str, lang_auto: &'static str }
+impl PreferenceManager {
+    fn pref_to_string(&self, name: &str) -> String {
+        if name == "Language" { self.lang.to_string() } else if name == "LanguageAuto" { self.lang_auto.to_string() }
+        else if name == "Rate" { "180".to_string() } else { NO_PREFERENCE.to_string() }
+    }
+}
+fn get_preference_body(rules: &RC<Rules>, name: String) -> Result<String> {
+    return (|rules: &RC<Rules>| CLOSURE_BLOCK)(rules);
+}
+fn case(name: &'static str, lang: &'static str, lang_auto: &'static str) -> u8 {
+    let rules = RC(Rules { pref_manager: RC(PreferenceManager { lang, lang_auto }) });
+    let want = rules.0.pref_manager.0.pref_to_string(name);
+    let r = get_preference_body(&rules, name.to_string());
+    let code = match &r { Ok(v) => if want.as_str() == NO_PREFERENCE { 1 } else if v.as_str() == want.as_str() { 0 } else { 2 }, Err(_) => if want.as_str() == NO_PREFERENCE { 0 } else { 3 } };
+    core::mem::forget(r); core::mem::forget(want);
+    code
+}
+HARNESS(get_preference_reads_back_the_stored_value, 15) {
+    const NAMES: [&str; 4] = ["Language", "LanguageAuto", "Rate", "NoSuch"];
+    const LANGS: [&str; 3] = ["Auto", "en", "es-mx"];
+    const AUTOS: [&str; 2] = ["", "es"];
+    let k = sym::below(24);
+    let code = match k {
+CASE_ARMS
+        _ => 0,
+    };
+    cover!(k == 1, "Language=Auto with LanguageAuto=es reachable");
+    cover!(k >= 18, "unknown name reachable");
+    assert!(code != 1, "get_preference returns a value for an unknown preference");
+    assert!(code != 2, "get_preference does not read back the stored value of the preference");
+    assert!(code != 3, "get_preference fails for a stored preference");
+}
+"""
+
+
+def api_get(vals=None, out=None):
+    res = mcprobe([("pref", "Language Auto"), ("pref", "LanguageAuto es"), ("getpref", "Language"), ("getpref", "NoSuchPreferenceName")])
+    bad = res[2] != ("OK", "Auto") or res[3][0] != "ERR"
+    return bad, {"script": "set_preference(Language, Auto); set_preference(LanguageAuto, es); get_preference(Language) must read back Auto; get_preference(unknown) must be an error", "results": res}
+
+
+def get_lemma(run):
+    prefs = slicer.Source.get("src/prefs.rs")
+    itf = slicer.Source.get("src/interface.rs")
+    gp = itf.find("fn get_preference")
+    blk = itf.find_bracketed("SPEECH_RULES . with ( | rules | {", within=gp)[0]
+    text = blk.text
+    block = text[text.index("{"):]
+    block = block[:block.rindex("}") + 1]
+    run.uses(slicer.Span(itf, blk.start, blk.end, "interface.rs::get_preference::closure"), prefs.find("static NO_PREFERENCE"))
+    arms = []
+    k = 0
+    for n in range(4):
+        for l in range(3):
+            for a in range(2):
+                arms.append("        %d => case(NAMES[%d], LANGS[%d], AUTOS[%d])," % (k, n, l, a))
+                k += 1
+    body = prefs.find("static NO_PREFERENCE").text + GET_SHIM.replace("CLOSURE_BLOCK", block).replace("CASE_ARMS", "\n".join(arms))
+    crate = kani_run.Crate("c12get", body)
+    run.bound("K-C12-d", "the closure body of get_preference verbatim; name in {Language, LanguageAuto, Rate, NoSuch} x stored Language in {Auto, en, es-mx} x stored LanguageAuto in {'', es} (24 solver-selected cases, each on literals)")
+    run.assume("K-C12-d: SPEECH_RULES / RefCell borrows replaced by plain references; PreferenceManager::pref_to_string by a three-entry table (its look-up statements are K-C12-a's subject); error text (bail!) not built")
+    return crate, dict(id="K-C12-d.get_preference_reads_back", harness="get_preference_reads_back_the_stored_value", api=lambda v, o: api_get(),
+                       role=lambda v, o: "read-back-substituted" if "does not read back" in o else ("unknown-name-has-value" if "unknown preference" in o else "stored-preference-fails"),
+                       covers=["Language=Auto with LanguageAuto=es reachable", "unknown name reachable"],
+                       claim="get_preference(name) = Ok(pref_to_string(name)) for a stored name, Err for an unknown one -- whatever the other preferences hold")
+
+
 def kernel(run, crate_name):
     """-> (crate, lemmas) of the setter kernel; also used by C08 (panic freedom of set_preference)."""
     return _build(run, crate_name, only_kernel=True)
@@ -263,6 +342,8 @@ def _build(run, crate_name, only_kernel=False):
     if only_kernel:
         return crate, lemmas
     run.kani(crate, lemmas, timeout=900)
+    crate_g, lemma_g = get_lemma(run)
+    run.kani(crate_g, [lemma_g], timeout=600)
 
     # ---- K-C12-c: normalisation of Language / LanguageAuto values (the block of set_preference before the kernel) ------------------
     lang_block = sp.find_expr('if name == "Language" || name == "LanguageAuto"')
